@@ -257,6 +257,7 @@ def check_c02(out, tier):
             wide.append(gen.case("c02w%d_%d" % (i, j), T, thr=thr, inverse=rnd.random() < .4, keepLess=rnd.random() < .7))
     run_and_judge(out, wide, ["C02"], mine, label="wide class, threshold exactly k/n")
     run_and_judge(out, [gen.chain_case(rnd, "c02k%d" % i) for i in range(30 * k)], ["C02"], mine, label="removal cascades")
+    run_and_judge(out, [gen.fan_case(rnd, "c02f%d" % i) for i in range(30 * k)], ["C02"], mine, label="several shapes emptied in one round")
     pinned_cases(out, "C02", ["C02"], mine)
     from harness import simulate
     simulate.replay(out, L2_BEHAVIOURS[tier], ["C02"], mine)
